@@ -30,7 +30,16 @@ ResendOk(r) ==
   /\ ((\A j \in 1..(Len(r.wire) - 1) : r.wire[j].seq < r.wire[j + 1].seq)
         \/ Rej(r, "retransmitted messages are not in ascending order", [wire |-> [j \in 1..Len(r.wire) |-> r.wire[j].seq]]))
 
+\* several messages handed over in one call: whatever the call does with the rest of the batch after a refusal, no message goes out
+\* unsaved, and the call reports it when a save failed or a handler refused
+BatchOk(r) ==
+  /\ ((\A j \in 1..Len(r.wire) : \E k \in 1..Len(r.saves) : r.saves[k].ok /\ r.saves[k].seq = r.wire[j].seq /\ r.saves[k].bytes = r.wire[j].bytes)
+        \/ Rej(r, "message on the wire was not saved first under its own sequence number", [wire |-> Len(r.wire), saves |-> Len(r.saves)]))
+  /\ ((r.err = ((\E k \in 1..Len(r.saves) : ~r.saves[k].ok) \/ ~Transmitted(hs, "V", TRUE)))
+        \/ Rej(r, "send call result does not report the refusal / save failure", [err |-> r.err, transmitted |-> Len(r.wire)]))
+
 StepOk(r) ==
+  IF r.a.a = "batch" THEN BatchOk(r) ELSE
   IF r.a.a = "recv" /\ r.a.ty = "2" THEN ResendOk(r) ELSE
   LET ot == OutTypeOf(r)
       saveOk == ot = "" \/ (nsave + 1 # failAt)
